@@ -6,8 +6,10 @@ package main
 import (
 	"fmt"
 	"math"
+	"regexp"
 	"sort"
 	"strings"
+	"unicode/utf8"
 
 	"github.com/tobgu/qframe"
 	"github.com/tobgu/qframe/types"
@@ -556,17 +558,83 @@ func matcherTable(n *cnode, d qframe.VerifFrame) string {
 	for _, p := range pk {
 		cs := p[1] == "like"
 		m, err := framehook.NewMatcher(p[0], cs)
-		if err != nil {
+		ref, rerr := refMatcher(p[0], cs)
+		if (err != nil) != (rerr != nil) {
+			noteMatcherDisagreement(fmt.Sprintf("pattern %q (case sensitive %v): the library's matcher construction fails = %v, the documented rule fails = %v", p[0], cs, err != nil, rerr != nil))
+		}
+		if rerr != nil {
 			items = append(items, "(("+hlib.Str(p[0])+", "+hlib.Bool(cs)+"), None)")
 			continue
 		}
 		ans := make([]string, len(keys))
 		for i, k := range keys {
-			ans[i] = "(" + hlib.Str(k) + ", " + hlib.Bool(m(k)) + ")"
+			a := ref(k)
+			if err == nil && utf8.ValidString(k) && m(k) != a {
+				noteMatcherDisagreement(fmt.Sprintf("pattern %q (case sensitive %v) on %q: the library's matcher answers %v, the documented rule %v", p[0], cs, k, m(k), a))
+			}
+			if !utf8.ValidString(k) && err == nil {
+				a = m(k) // upper-casing of invalid UTF-8 is the strings engine's business
+			}
+			ans[i] = "(" + hlib.Str(k) + ", " + hlib.Bool(a) + ")"
 		}
 		items = append(items, "(("+hlib.Str(p[0])+", "+hlib.Bool(cs)+"), Some "+hlib.List(ans)+")")
 	}
 	return hlib.List(items)
+}
+
+// refMatcher is the harness's own transcription (standard library only) of the documented like / ilike rule: a
+// pattern with regular expression characters is a regular expression, anchored at the ends that carry no %, and
+// compiled case-insensitively for ilike; any other pattern is a literal that must occur at the start / at the end /
+// anywhere / as the whole cell according to one % at its end / start / both / none, compared in upper case for ilike.
+// The oracle tables of the filter cases are built from it, and the library's matcher is compared with it on every
+// entry: a matcher that depends on what was matched earlier in the process shows up here.
+func refMatcher(pat string, caseSensitive bool) (func(string) bool, error) {
+	fuzzyStart := strings.HasPrefix(pat, "%")
+	fuzzyEnd := strings.HasSuffix(pat, "%")
+	if regexp.QuoteMeta(pat) != pat {
+		e := pat
+		if !fuzzyStart {
+			e = "^" + e
+		} else {
+			e = e[1:]
+		}
+		if !fuzzyEnd {
+			e = e + "$"
+		} else {
+			e = e[:len(e)-1]
+		}
+		if !caseSensitive {
+			e = "(?i)" + e
+		}
+		r, err := regexp.Compile(e)
+		if err != nil {
+			return nil, err
+		}
+		return r.MatchString, nil
+	}
+	lit := strings.TrimSuffix(strings.TrimPrefix(pat, "%"), "%")
+	norm := func(x string) string { return x }
+	if !caseSensitive {
+		norm = strings.ToUpper
+		lit = strings.ToUpper(lit)
+	}
+	switch {
+	case fuzzyStart && fuzzyEnd:
+		return func(x string) bool { return strings.Contains(norm(x), lit) }, nil
+	case fuzzyStart:
+		return func(x string) bool { return strings.HasSuffix(norm(x), lit) }, nil
+	case fuzzyEnd:
+		return func(x string) bool { return strings.HasPrefix(norm(x), lit) }, nil
+	}
+	return func(x string) bool { return norm(x) == lit }, nil
+}
+
+var matcherDisagreements []string
+
+func noteMatcherDisagreement(s string) {
+	if len(matcherDisagreements) < 40 {
+		matcherDisagreements = append(matcherDisagreements, s)
+	}
 }
 
 // genPromotionClause: a leaf comparing an int column with a FLOAT column (or the other way round) by an ordering
@@ -620,7 +688,13 @@ func genEnumLikeClause(r *hlib.Rng, cols []genCol) *cnode {
 	}
 	c := cands[r.Intn(len(cands))]
 	base := caseCluster[r.Intn(len(caseCluster))]
+	// plain wildcard patterns, and (one time in three) patterns that go to the regexp engine: the same pattern text is met
+	// with like AND ilike in the course of one run (a matcher that remembers a pattern must remember the case mode too)
 	pat := []string{base, base, base + "%", "%" + base, "%" + base + "%"}[r.Intn(5)]
+	if r.Chance(1, 3) {
+		// few distinct texts, so that each of them meets both comparators several times in a run
+		pat = []string{"a.*", "^ab", "(a)", "a.", "%b.", "A.*"}[r.Intn(6)]
+	}
 	op := []string{"ilike", "ilike", "like"}[r.Intn(3)]
 	leaf := &cnode{kind: "leaf", col: c.name, cmpS: op, cmpGo: op, argGo: pat, argC: "(AStr " + hlib.Str(pat) + ")", inv: r.Chance(1, 4),
 		desc: fmt.Sprintf("%s %q %s", c.name, op, pat)}
